@@ -736,6 +736,150 @@ static void sub_normalgravity(Ctx& ctx, bool T) {
   }
 }
 
+// ================================================================================================== file-format corner cases
+// gravity: correction block {empty (N = M = -1), one zero coefficient (0,0), degree 1, degree 2} x HeightOffset {0, -0.53, 1.25}
+// x CorrectionMultiplier {1, 0.01, 1000} x Normalization {full, schmidt} x constructor truncation {none, (1,-1)}:
+// GeoidHeight of GravityModel and GravityCircle against the reference (T/gamma0 + CorrectionMultiplier * correction sum +
+// HeightOffset, all from the file's numbers), plus the differential predicates
+//   empty block == single-zero-coefficient block (bitwise),   GeoidHeight(offset) - GeoidHeight(offset = 0) = offset.
+static void sub_gravity_corners(Ctx& ctx, bool T) {
+  ctx.sub("gravity-corners");
+  const double Z0[3] = {0, -0.53, 1.25}, CM[3] = {1, 0.01, 1000};
+  const int TRC[2][2] = {{-1, -1}, {1, -1}};
+  const double PTS[4][2] = {{90, 0}, {-33.25, 77.5}, {0, 180}, {-90, -120}};
+  const int NP = T ? 4 : 3;
+  ctx.bound("gravity-corners", "correction block in {empty (-1,-1), single zero coefficient (0,0), degree 1, degree 2} x HeightOffset in {0,-0.53,1.25} x CorrectionMultiplier in {1,0.01,1000} x Normalization in {full,schmidt} x truncation in {none,(1,-1)} = 144 generated files; GeoidHeight of GravityModel and of GravityCircle (caps GEOID_HEIGHT and ALL) at " + fmti(NP) + " points incl. the poles; oracle + empty == zero block (bitwise) + N(offset) - N(0) = offset");
+  for (int norm = 0; norm < 2; ++norm) for (int im = 0; im < 3; ++im) for (int itr = 0; itr < 2; ++itr) {
+    if (!ctx.take()) continue;
+    double val[4][3][4][3];                                  // [block][offset][point][api]
+    bool have[4][3] = {{false}};
+    for (int cb = 0; cb < 4; ++cb) for (int iz = 0; iz < 3; ++iz) {
+      GravSpec gs = make_grav(0);
+      gs.norm = norm; gs.normkey = true;
+      if (norm == sph::SCHMIDT) for (int m = 0; m <= gs.grav.M; ++m) for (int n = m; n <= gs.grav.N; ++n) { double nf = std::sqrt(2.0 * n + 1); gs.grav.C[gs.grav.ci(n, m)] *= nf; if (m) gs.grav.S[gs.grav.si(n, m)] *= nf; }
+      gs.name = std::string("c") + fmti(cb) + fmti(iz) + fmti(im) + fmti(norm) + fmti(itr);
+      gs.corr = cb == 0 ? CSet(-1, -1) : cb == 1 ? CSet(0, 0) : CSet(cb - 1, cb - 1);
+      if (cb >= 2) gs.corr.fill(cb + 3, 0.1, 1);
+      gs.zeta0 = Z0[iz]; gs.zkey = true; gs.corrmult = CM[im]; gs.ckey = true;
+      write_grav(gs);
+      GravCtx gc; gc.g = &gs; gc.Nt = TRC[itr][0]; gc.Mt = TRC[itr][1];
+      trunc_of(gs.grav, gc.Nt, gc.Mt, gc.nmx, gc.mmx); trunc_of(gs.corr, gc.Nt, gc.Mt, gc.cn, gc.cm);
+      gc.fref = Q(gs.fJ2); gc.ell.reset(new sph::ng::Ell(Q(gs.aref), Q(gs.GMref), Q(gs.omega), gc.fref));
+      static const char* CBN[4] = {"empty", "zero", "deg1", "deg2"};
+      std::string vkey = std::string("gravity-corners block=") + CBN[cb] + " HeightOffset=" + fmt(gs.zeta0) + " CorrectionMultiplier=" + fmt(gs.corrmult) + " norm=" + (norm ? "schmidt" : "full") + " trunc=" + fmti(gc.Nt) + "," + fmti(gc.Mt);
+      mc::Fields F{{"block", CBN[cb]}, {"offset", fmt(gs.zeta0)}, {"multiplier", fmt(gs.corrmult)}, {"norm", norm ? "SCHMIDT" : "FULL"}};
+      std::unique_ptr<GravityModel> gm;
+      try { if (itr == 0) gm.reset(new GravityModel(gs.name, datadir() + "/gravity")); else gm.reset(new GravityModel(gs.name, datadir() + "/gravity", gc.Nt, gc.Mt)); }
+      catch (const std::exception& e) { Ctx::Case cas(ctx); mc::Fields g = F; g.push_back({"kind", "load"}); ctx.fail(vkey, std::string("well-formed model file rejected: ") + e.what(), g); continue; }
+      have[cb][iz] = true;
+      for (int ip = 0; ip < NP; ++ip) {
+        Ctx::Case cas(ctx);
+        const double lat = PTS[ip][0], lon = PTS[ip][1];
+        ctx.sig((uint64_t)(cb * 100 + iz * 10 + im) * 4 + norm * 2 + itr);
+        Fail fl{ctx, vkey + " lat=" + fmt(lat) + " lon=" + fmt(lon), F};
+        sph::Geo g0 = sph::geodetic(Q(gs.aref), gc.fref, Q(lat), Q(lon), Q(0));
+        GravRef r0 = grav_ref(gc, g0.X, g0.Y, g0.Z, false);
+        Q R = r0.R, pe = Q(2 * EPS) * R;
+        sph::Sum cs = qsum(gs.norm, Q(1), std::max(gc.cn, 0), std::max(gc.cm, 0), g0.X / R, g0.Y / R, g0.Z / R, [&](int n, int m, Q& C, Q& S, Q& aC, Q& aS) {
+          C = gs.corr.c(n, m); S = gs.corr.s(n, m); aC = sph::qabs(C); aS = sph::qabs(S); });
+        Q gamma0 = gc.ell->surface_gravity(Q(lat));
+        Q Nref = r0.Tp.v / gamma0 + Q(gs.corrmult) * cs.v + Q(gs.zeta0);
+        Q Ntol = (tol_v(r0.Tp) + pe * r0.Tp.sg) / gamma0 + Q(8 * EPS) * sph::qabs(r0.Tp.v / gamma0) + Q(gs.corrmult) * (tol_v(cs) + Q(8 * EPS) * cs.sg) + Q(8 * EPS) * (sph::qabs(Q(gs.zeta0)) + Q(gs.corrmult) * cs.sv);
+        double v0 = gm->GeoidHeight(lat, lon);
+        GravityCircle c1 = gm->Circle(lat, 0, GravityModel::GEOID_HEIGHT), c2 = gm->Circle(lat, 0, GravityModel::ALL);
+        double v1 = c1.GeoidHeight(lon), v2 = c2.GeoidHeight(lon);
+        fl.num("gravity-corners.geoidheight", "geoid", "GravityModel::GeoidHeight", v0, Nref, Ntol);
+        fl.num("gravity-corners.geoidheight", "circle-geoid", "GravityCircle(GEOID_HEIGHT)::GeoidHeight", v1, Nref, Ntol);
+        fl.num("gravity-corners.geoidheight", "circle-geoid", "GravityCircle(ALL)::GeoidHeight", v2, Nref, Ntol);
+        val[cb][iz][ip][0] = v0; val[cb][iz][ip][1] = v1; val[cb][iz][ip][2] = v2;
+        // N(offset) - N(0) = offset
+        if (iz > 0 && have[cb][0]) for (int k = 0; k < 3; ++k) {
+          double d = val[cb][iz][ip][k] - val[cb][0][ip][k];
+          Q scale = sph::qabs(Q(val[cb][iz][ip][k])) + sph::qabs(Q(val[cb][0][ip][k])) + sph::qabs(Q(gs.zeta0));
+          fl.num("gravity-corners.offset_difference", "offset-difference", std::string("GeoidHeight(HeightOffset) - GeoidHeight(0), api ") + fmti(k), d, Q(gs.zeta0), Q(8 * EPS) * scale);
+        }
+        // empty block == one zero coefficient
+        if (cb == 1 && have[0][iz]) for (int k = 0; k < 3; ++k)
+          if (!mc::same_bits(val[1][iz][ip][k], val[0][iz][ip][k]))
+            ctx.fail(fl.key + " empty-vs-zero api " + fmti(k), "GeoidHeight with an empty correction block = " + fx(val[0][iz][ip][k]) + " but with a single zero coefficient = " + fx(val[1][iz][ip][k]), fl.with("empty-vs-zero"));
+        if (ctx.want_sample()) ctx.sample(fl.key);
+      }
+    }
+  }
+}
+
+// magnetic: constant block {absent (NumConstants 0), empty (-1,-1), single zero (0,0), zero block of degree 2} x secular-variation
+// block {generic, empty (-1,-1), single zero (0,0)} x NumModels {1,2} x Normalization x truncation {none,(2,1)}: oracle + all
+// constant-block variants give bitwise the same field; empty and zero secular variation give bitwise the same field and a zero rate
+// (NumModels = 1).
+static void sub_magnetic_corners(Ctx& ctx, bool T) {
+  ctx.sub("magnetic-corners");
+  ctx.bound("magnetic-corners", "constant block in {absent, empty (-1,-1), zero (0,0), zero (2,2)} x secular-variation block in {generic, empty (-1,-1), zero (0,0)} x NumModels in {1,2} x Normalization in {schmidt, full} x truncation in {none,(2,1)} = 96 generated files; FieldGeocentric at 3 points, operator() and Circle at 2 points, 3 times; oracle + bitwise equality across the constant-block variants and between empty and zero secular variation");
+  const int TRC[2][2] = {{-1, -1}, {2, 1}};
+  const double times[3] = {2015.5, 2021.3, 2031};
+  const double GP[3][3] = {{0, 0, 6.4e6}, {-3.1e6, 4.2e6, 3.9e6}, {1e6, -2e6, 2.5e6}};
+  const double LL[2][3] = {{33, 77.3, 1000}, {-90, 180, 0}};
+  for (int NM = 1; NM <= 2; ++NM) for (int norm = 0; norm < 2; ++norm) for (int itr = 0; itr < 2; ++itr) {
+    if (!ctx.take()) continue;
+    std::vector<double> res[3][4];                             // [sv][const]
+    for (int sv = 0; sv < 3; ++sv) for (int cb = 0; cb < 4; ++cb) {
+      MagSpec ms = make_mag(NM, cb ? 1 : 0, norm, true);
+      ms.name = std::string("k") + fmti(NM) + fmti(sv) + fmti(cb) + fmti(norm) + fmti(itr);
+      if (sv) ms.sets[NM] = sv == 1 ? CSet(-1, -1) : CSet(0, 0);
+      if (cb) ms.sets[NM + 1] = cb == 1 ? CSet(-1, -1) : cb == 2 ? CSet(0, 0) : CSet(2, 2);
+      write_mag(ms);
+      const int Nt = TRC[itr][0], Mt = TRC[itr][1];
+      static const char* SVN[3] = {"generic", "empty", "zero"}; static const char* CBN[4] = {"absent", "empty", "zero00", "zero22"};
+      std::string vkey = std::string("magnetic-corners NumModels=") + fmti(NM) + " secular=" + SVN[sv] + " constant=" + CBN[cb] + " norm=" + (norm == sph::FULL ? "full" : "schmidt") + " trunc=" + fmti(Nt) + "," + fmti(Mt);
+      mc::Fields F{{"NumModels", fmti(NM)}, {"secular", SVN[sv]}, {"constant", CBN[cb]}, {"norm", norm == sph::FULL ? "FULL" : "SCHMIDT"}};
+      std::unique_ptr<MagneticModel> mm;
+      try { if (itr == 0) mm.reset(new MagneticModel(ms.name, datadir() + "/magnetic")); else mm.reset(new MagneticModel(ms.name, datadir() + "/magnetic", Geocentric::WGS84(), Nt, Mt)); }
+      catch (const std::exception& e) { Ctx::Case cas(ctx); mc::Fields g = F; g.push_back({"kind", "load"}); ctx.fail(vkey, std::string("well-formed model file rejected: ") + e.what(), g); continue; }
+      const MagneticModel& M = *mm;
+      std::vector<double>& out = res[sv][cb];
+      for (double t : times) {
+        Ctx::Case cas(ctx);
+        ctx.sig((uint64_t)((NM * 3 + sv) * 4 + cb) * 4 + norm * 2 + itr);
+        for (auto& gp : GP) {
+          Fail fl{ctx, vkey + " t=" + fmt(t) + " XYZ=" + fmt(gp[0]) + "," + fmt(gp[1]) + "," + fmt(gp[2]), F};
+          MagRef ref = mag_ref(ms, Nt, Mt, t, Q(gp[0]), Q(gp[1]), Q(gp[2]));
+          double B[3] = {SENT, SENT, SENT}, Bt[3] = {SENT, SENT, SENT};
+          if (!safe(fl, [&] { M.FieldGeocentric(t, gp[0], gp[1], gp[2], B[0], B[1], B[2], Bt[0], Bt[1], Bt[2]); })) continue;
+          fl.vec("magnetic-corners.geocentric.B", "field", "FieldGeocentric B", B, ref.B);
+          fl.vec("magnetic-corners.geocentric.Bt", "rate", "FieldGeocentric dB/dt", Bt, ref.Bt);
+          for (int i = 0; i < 3; ++i) { out.push_back(B[i]); out.push_back(Bt[i]); }
+          if (NM == 1 && sv > 0) for (int i = 0; i < 3; ++i) if (Bt[i] != 0) { ctx.fail(fl.key + " zero-rate", "rate of a single-epoch model without secular variation is " + fx(Bt[i]), fl.with("rate")); break; }
+        }
+        for (auto& ll : LL) {
+          Fail fl{ctx, vkey + " t=" + fmt(t) + " lat=" + fmt(ll[0]) + " lon=" + fmt(ll[1]) + " h=" + fmt(ll[2]), F};
+          sph::Geo g = sph::geodetic(Q(Constants::WGS84_a()), Q(Constants::WGS84_f()), Q(ll[0]), Q(ll[1]), Q(ll[2]));
+          MagRef ref = mag_ref(ms, Nt, Mt, t, g.X, g.Y, g.Z);
+          Q R = sqrtq(g.X * g.X + g.Y * g.Y + g.Z * g.Z), posB = Q(2 * EPS) * R * ref.B.sh, posBt = Q(2 * EPS) * R * ref.Bt.sh;
+          sph::Sum rB = rotate(ref.B, g.e, g.n, g.u), rBt = rotate(ref.Bt, g.e, g.n, g.u);
+          double b[3] = {SENT, SENT, SENT}, bt[3] = {SENT, SENT, SENT}, c[3] = {SENT, SENT, SENT}, ct[3] = {SENT, SENT, SENT};
+          if (!safe(fl, [&] { M(t, ll[0], ll[1], ll[2], b[0], b[1], b[2], bt[0], bt[1], bt[2]); MagneticCircle mc_ = M.Circle(t, ll[0], ll[2]); mc_(ll[1], c[0], c[1], c[2], ct[0], ct[1], ct[2]); })) continue;
+          fl.vec("magnetic-corners.enu.B", "field-enu", "operator() B", b, rB, 2 * posB);
+          fl.vec("magnetic-corners.enu.Bt", "rate-enu", "operator() dB/dt", bt, rBt, 2 * posBt);
+          fl.vec("magnetic-corners.circle.B", "circle-field", "MagneticCircle B", c, rB, 2 * posB);
+          fl.vec("magnetic-corners.circle.Bt", "circle-rate", "MagneticCircle dB/dt", ct, rBt, 2 * posBt);
+          for (int i = 0; i < 3; ++i) { out.push_back(b[i]); out.push_back(bt[i]); out.push_back(c[i]); out.push_back(ct[i]); }
+        }
+      }
+      // differential predicates (values that are zero may differ in sign: compare with ==)
+      auto same = [](const std::vector<double>& a, const std::vector<double>& b) { if (a.size() != b.size()) return -2; for (size_t i = 0; i < a.size(); ++i) if (!(mc::same_bits(a[i], b[i]) || (a[i] == 0 && b[i] == 0))) return (int)i; return -1; };
+      Ctx::Case cas(ctx);
+      if (cb > 0 && !res[sv][0].empty()) {
+        int d = same(out, res[sv][0]);
+        if (d != -1) { mc::Fields g = F; g.push_back({"kind", "zero-constant-differs"}); ctx.fail(vkey + " vs constant=absent", "a model with a zero/empty constant block gives a different field than the same model without one (result #" + fmti(d) + ": " + (d >= 0 ? fx(out[d]) + " vs " + fx(res[sv][0][d]) : std::string("missing")) + ")", g); }
+      }
+      if (sv == 2 && !res[1][cb].empty()) {
+        int d = same(out, res[1][cb]);
+        if (d != -1) { mc::Fields g = F; g.push_back({"kind", "empty-vs-zero"}); ctx.fail(vkey + " vs secular=empty", "zero and empty secular-variation blocks give different fields (result #" + fmti(d) + ")", g); }
+      }
+    }
+  }
+}
+
 int main(int argc, char** argv) {
   Ctx ctx(argc, argv);
   const bool T = ctx.thorough();
@@ -745,6 +889,8 @@ int main(int argc, char** argv) {
   sub_magnetic(ctx, T);
   sub_components(ctx, T);
   sub_gravity(ctx, T);
+  sub_gravity_corners(ctx, T);
+  sub_magnetic_corners(ctx, T);
   sub_normalgravity(ctx, T);
   int rc = ctx.finish();
   cleanup();
